@@ -33,6 +33,9 @@ struct Driver {
     counts: std::collections::BTreeMap<String, u64>,
     /// replica cut off from the others (partition) during the last part of the prefix
     isolated: Option<usize>,
+    /// Twins: for every faulty validator two further *real* replicas run with its key (each with its own engine and durable
+    /// state, in a world of its own whose log is discarded). Whatever they emit is Byzantine material in the pool.
+    twins: Vec<(World, usize)>,
 }
 
 impl Driver {
@@ -302,7 +305,91 @@ impl Driver {
         }
     }
 
+    /// One step of a twin: it hears a message of the pool (each twin prefers its own half of the recent ones, so the two
+    /// incarnations of one key drift apart), its timer fires, its proposer runs, or it fetches blocks from the correct nodes.
+    async fn twin_step(&mut self) {
+        if self.twins.is_empty() {
+            return;
+        }
+        let t = self.rng.gen_range(0..self.twins.len());
+        let poss: Vec<usize> = self.twins[t].0.nodes.keys().copied().collect();
+        let Some(&b) = poss.choose(&mut self.rng) else { return };
+        // (1) catch up on blocks
+        loop {
+            let have = self.twins[t].0.nodes[&b].engine.store_len();
+            let mut blk = None;
+            for n in self.w.nodes.values() {
+                let bs = n.engine.inner().blocks.lock().unwrap();
+                if bs.len() > have {
+                    blk = Some(bs[have].clone());
+                    break;
+                }
+            }
+            match blk {
+                Some(x) => {
+                    if !self.twins[t].0.sync_block(b, x).await {
+                        break;
+                    }
+                }
+                None => break,
+            }
+        }
+        // (2) hear the recent traffic - except (mostly) what the OTHER incarnation of this key said, so that the two drift apart
+        let other: Vec<Vec<u8>> = self.twins.iter().enumerate().filter(|(i, _)| *i != t).flat_map(|(_, (tw, _))| tw.emitted.iter().rev().take(20).map(|m| zksync_protobuf::encode(&m.sig)).collect::<Vec<_>>()).collect();
+        let n = self.pool.len();
+        let k = self.rng.gen_range(1..=10usize).min(n);
+        let recent: Vec<SMsg> = self.pool[n - k..].to_vec();
+        for m in recent {
+            if other.contains(&zksync_protobuf::encode(&m.sig)) && self.rng.gen_bool(0.8) {
+                continue;
+            }
+            if self.twins[t].0.nodes.get(&b).map(|n| n.replica.is_none()).unwrap_or(true) {
+                break;
+            }
+            let r = self.twins[t].0.step(b, StepKind::Recv(m)).await;
+            if r.crashed {
+                self.twins[t].0.crash(b).await;
+                self.twins[t].0.step(b, StepKind::Boot).await;
+            }
+        }
+        // (3) lead when it is this key's turn: each incarnation proposes its own payload, and votes for it
+        if self.twins[t].0.nodes[&b].pending_just.is_some() && self.rng.gen_bool(0.8) {
+            self.w.payload_counter += 1;
+            let name = format!("t{}p{}", t, self.w.payload_counter);
+            self.w.labels.payload(&name); // the observer's name for it, before any vote for it is seen
+            if let Some(m) = self.twins[t].0.propose(b, &name).await {
+                let r = self.twins[t].0.step(b, StepKind::Recv(m)).await;
+                if r.crashed {
+                    self.twins[t].0.crash(b).await;
+                    self.twins[t].0.step(b, StepKind::Boot).await;
+                }
+            }
+        }
+        // (4) sometimes its timer fires
+        if self.rng.gen_range(0..100) < 15 {
+            let r = self.twins[t].0.step(b, StepKind::Timer).await;
+            if r.crashed {
+                self.twins[t].0.crash(b).await;
+                self.twins[t].0.step(b, StepKind::Boot).await;
+            }
+        }
+        // everything a twin made visible is deliverable to anyone
+        let (tw, seen) = &mut self.twins[t];
+        let mut fresh = 0;
+        while *seen < tw.emitted.len() {
+            self.pool.push(tw.emitted[*seen].clone());
+            *seen += 1;
+            fresh += 1;
+        }
+        *self.counts.entry("twin_steps".into()).or_default() += 1;
+        *self.counts.entry("twin_messages".into()).or_default() += fresh;
+    }
+
     async fn random_step(&mut self) {
+        if !self.twins.is_empty() && self.rng.gen_range(0..100) < 15 {
+            self.twin_step().await;
+            return;
+        }
         let real: Vec<usize> = self.real().into_iter().filter(|p| Some(*p) != self.isolated).collect();
         let pos = *real.choose(&mut self.rng).unwrap();
         let x = self.rng.gen_range(0..100);
@@ -443,10 +530,23 @@ async fn run_random(trace: &str, report: &str, seed: u64, steps: u64, cfg: &str,
     let (weights, faulty) = config(cfg);
     let mut rep = Report::default();
     let w = World::new(&weights, &faulty, seed).await;
-    let mut d = Driver { w, rng: vcore::rng(seed), pool: vec![], seen_emitted: 0, counts: Default::default(), isolated: None };
+    let mut d = Driver { w, rng: vcore::rng(seed), pool: vec![], seen_emitted: 0, counts: Default::default(), isolated: None, twins: vec![] };
     // boot every node (view 0 times out immediately)
     for p in d.real() {
         d.boot(p).await;
+    }
+    if seed % 2 == 1 && !faulty.is_empty() {
+        // twins (odd seeds): two more worlds with the same keys (Committee::new is a function of weights and seed) in which only
+        // the FAULTY validators run - real replicas, real engines, own durable state. Their logs are not part of the trace.
+        let correct: Vec<usize> = (1..=weights.len()).filter(|p| !faulty.contains(p)).collect();
+        for _ in 0..2 {
+            let mut tw = World::new(&weights, &correct, seed).await;
+            for b in faulty.iter() {
+                tw.step(*b, StepKind::Boot).await;
+            }
+            d.twins.push((tw, 0));
+        }
+        d.count("twin_runs");
     }
     for i in 0..steps {
         if i == steps * 3 / 4 && seed % 2 == 0 {
@@ -480,8 +580,22 @@ async fn run_random(trace: &str, report: &str, seed: u64, steps: u64, cfg: &str,
     rep.add("stuck", d.w.stuck);
     rep.add("events", d.w.log.len() as u64);
     rep.sample(json!({"config": cfg, "seed": seed, "views_after_prefix": views, "heights_after_prefix": heights_prefix, "progress": progress}));
+    if !d.twins.is_empty() {
+        // how often the two incarnations of one key really contradicted each other (commit votes of one view for different blocks)
+        let mut votes: std::collections::BTreeMap<(Vec<u8>, u64), std::collections::BTreeSet<Vec<u8>>> = Default::default();
+        for (tw, _) in d.twins.iter() {
+            for v in vcore::bft::commits_in(&tw.emitted) {
+                votes.entry((zksync_protobuf::encode(&v.key), v.msg.view.number.0)).or_default().insert(zksync_protobuf::encode(&v.msg.proposal));
+            }
+        }
+        rep.add("twin_commit_equivocations", votes.values().filter(|s| s.len() > 1).count() as u64);
+        rep.add("twin_commit_votes", votes.len() as u64);
+    }
     d.w.log.write(trace);
     d.w.shutdown().await;
+    for (tw, _) in d.twins.iter_mut() {
+        tw.shutdown().await;
+    }
     rep.write(report);
 }
 
@@ -888,7 +1002,7 @@ async fn run_replay(scn_path: &str, trace: &str, report: &str) {
     let faulty: Vec<usize> = scn["config"]["faulty"].as_array().unwrap().iter().map(|x| x.as_u64().unwrap() as usize).collect();
     let mut rep = Report::default();
     let w = World::new(&weights, &faulty, scn["seed"].as_u64().unwrap_or(1)).await;
-    let mut d = Driver { w, rng: vcore::rng(1), pool: vec![], seen_emitted: 0, counts: Default::default(), isolated: None };
+    let mut d = Driver { w, rng: vcore::rng(1), pool: vec![], seen_emitted: 0, counts: Default::default(), isolated: None, twins: vec![] };
     for p in d.real() {
         d.boot(p).await;
     }
@@ -942,8 +1056,22 @@ async fn run_replay(scn_path: &str, trace: &str, report: &str) {
     rep.add("events", d.w.log.len() as u64);
     rep.add("stuck", d.w.stuck);
     rep.sample(json!({"scenario": scn_path, "applied": applied, "skipped": skipped, "progress": progress, "heights": d.heights()}));
+    if !d.twins.is_empty() {
+        // how often the two incarnations of one key really contradicted each other (commit votes of one view for different blocks)
+        let mut votes: std::collections::BTreeMap<(Vec<u8>, u64), std::collections::BTreeSet<Vec<u8>>> = Default::default();
+        for (tw, _) in d.twins.iter() {
+            for v in vcore::bft::commits_in(&tw.emitted) {
+                votes.entry((zksync_protobuf::encode(&v.key), v.msg.view.number.0)).or_default().insert(zksync_protobuf::encode(&v.msg.proposal));
+            }
+        }
+        rep.add("twin_commit_equivocations", votes.values().filter(|s| s.len() > 1).count() as u64);
+        rep.add("twin_commit_votes", votes.len() as u64);
+    }
     d.w.log.write(trace);
     d.w.shutdown().await;
+    for (tw, _) in d.twins.iter_mut() {
+        tw.shutdown().await;
+    }
     rep.write(report);
 }
 
